@@ -4,7 +4,34 @@ import json, os
 V = os.path.dirname(os.path.dirname(os.path.abspath(__file__)))
 props = [json.loads(l) for l in open(os.path.join(V, "properties.jsonl"))]
 
+STREAM_NOTE = ("Trusted: TLC, the transcription of the stream documentation into Streams.tla, the replay harness; numeric agreement is "
+               "decided in the exact dyadic domain (sample values, gains, ticks are small dyadic rationals; tolerance 2^-16 of the "
+               "largest magnitude in the behaviour); absolute accuracy on arbitrary non-dyadic floats is not decided by this check.")
+TECH = "TLA+ spec model-checked with TLC; TLC-generated behaviours replayed into the implementation"
 CLAIMS = {
+ "C04": dict(design_ref="DESIGN.md section 4, C04",
+    text="TLC checks on Streams.tla (machine PID) that the incremental controller equals the closed-form textbook PID over the run of "
+         "samples since the last absent/error event (PIDRef) for every history up to the bound and random histories up to 64 events; "
+         "each behaviour is replayed into the real PIDControllerStream and into the same controller assembled from the crate's primitive "
+         "streams, under several base times (shift invariance), tick lengths (1/512 s .. 64 s) and power-of-two value scalings.",
+    note=STREAM_NOTE, technique=TECH),
+ "C10": dict(design_ref="DESIGN.md section 4, C10",
+    text="TLC checks on Streams.tla that the integral, derivative and the three to-state machines equal the history-defined trapezoid "
+         "sums / difference quotients (IntegralRef, DerivativeRef, ToStateRef) with non-uniform intervals; behaviours (including the 7x7 "
+         "unit grid and the unit-assertion panics) are replayed into the real streams under several bases, ticks and scalings.",
+    note=STREAM_NOTE, technique=TECH),
+ "C11": dict(design_ref="DESIGN.md section 4, C11",
+    text="TLC checks on Streams.tla (machine CmdPID) that the staged update equals the closed forms (PID law on the run, its trapezoid "
+         "integral, the integral of that; absent for exactly 0/1/2 samples) and the set/reset rules, for all histories over {sample, absent, "
+         "two errors, set same/other kind/other value} up to the bound plus random long ones; replayed into the real CommandPID with a real "
+         "reset twin constructed with the command in effect.",
+    note=STREAM_NOTE, technique=TECH),
+ "C12": dict(design_ref="DESIGN.md section 4, C12",
+    text="TLC checks on Streams.tla (EWMA, moving average) queue non-emptiness, retained-window, non-negative weights summing to the window, "
+         "convexity, first-sample and constant-input laws; behaviours with repeated timestamps, short and long windows are replayed into the "
+         "f32 and the Quantity variants of both real filters, the variants compared bit for bit, any panic being a mismatch.",
+    note=STREAM_NOTE + " EWMA behaviours use a tick of one second and smoothing constants whose powers are exact, so the power function is exact.",
+    technique=TECH),
  "C05": dict(
     design_ref="DESIGN.md section 4, C05",
     text="TLC checks spec/Streams.tla (14 stream machines; laws NoStaleError, FreezeLaw, ResetTwin, SkipAbsentTwin and the "
@@ -13,7 +40,7 @@ CLAIMS = {
          "a freshly constructed real twin restarted at each reset event and a twin that never sees absent samples.",
     note="Trusted: TLC, the transcription of each stream's documented reset class into Streams.tla, the replay harness; numeric "
          "agreement is decided in the exact dyadic domain (tolerance 2^-16 of the largest magnitude in the behaviour).",
-    technique="TLA+ spec model-checked with TLC; TLC-generated behaviours replayed into the implementation"),
+    technique=TECH),
 }
 PENDING = "check under construction in this round (specification module not yet bound to the code); not claimed until it runs green"
 
